@@ -163,12 +163,12 @@ func (_this *Encoder) OnBigInt(value *big.Int) {
 			_this.OnNegativeInt(uint64(-value.Int64()))
 			return
 		}
-		value = value.Neg(value)
-		if value.IsUint64() {
-			_this.OnNegativeInt(uint64(value.Uint64()))
+		// Negate a copy: the caller's big.Int must not be modified
+		magnitude := new(big.Int).Neg(value)
+		if magnitude.IsUint64() {
+			_this.OnNegativeInt(uint64(magnitude.Uint64()))
 			return
 		}
-		value = value.Neg(value)
 		_this.writer.WriteTypedBigInt(cbeTypeNegInt, value)
 		return
 	}
